@@ -209,6 +209,7 @@ pub struct MixedInput {
 pub struct MixOpts {
     pub weights: [u32; 6],
     pub tree: TreeOpts,
+    pub spec: SpecOpts,
 }
 
 impl Default for MixOpts {
@@ -216,13 +217,14 @@ impl Default for MixOpts {
         MixOpts {
             weights: [3, 3, 6, 1, 2, 2],
             tree: TreeOpts { max_nodes: 30, pay: PayOpts { big_left: 0, huge: false, max_small: 24 }, ..TreeOpts::default() },
+            spec: SpecOpts::default(),
         }
     }
 }
 
 /// The input mix used by the reader properties: valid / non-canonical / mutated / random / adversarial / mid-document
 pub fn gen_mixed(t: &mut Tape, o: MixOpts) -> MixedInput {
-    let spec = gen_spec_choice(t, SpecOpts::default());
+    let spec = gen_spec_choice(t, o.spec);
     let kind = t.weighted(&o.weights);
     let mut to = o.tree;
     to.deep = t.chance(1, 2);
